@@ -337,8 +337,14 @@ def limits_rule(ctx, facts, cfg, pol, e4):
                         if rv2['k'] == 'use' and rv2['x']['k'] in ('copy', 'move') and rv2['x']['place']['proj']:
                             dt = defs.get(rv2['x']['place']['local'])
                             rv2 = dt[1] if dt and dt[0] == 'rv' else rv2
-                        if rv2['k'] == 'binop' and rv2['op'].startswith('Add') and rv2['l'].get('k') == 'copy' and not rv2['l']['place']['proj'] and F.op_const(rv2['r']) == 1:
+                        if rv2['k'] == 'binop' and rv2['op'].startswith('Add') and rv2['l'].get('k') in ('copy', 'move') and not rv2['l']['place']['proj'] and F.op_const(rv2['r']) == 1:
                             lbl_l = rv2['l']['place']['local']
+                            for _ in range(4):   # release builds copy the label length into a temporary first
+                                dl = defs.get(lbl_l)
+                                if dl and dl[0] == 'rv' and dl[1]['k'] == 'use' and dl[1]['x']['k'] in ('copy', 'move') and not dl[1]['x']['place']['proj']:
+                                    lbl_l = dl[1]['x']['place']['local']
+                                else:
+                                    break
                     if lbl_l is None:
                         continue
                     los, his, ahi = [], [], []
